@@ -109,7 +109,28 @@ func C09(c *Ctx) error {
 	n := c.N(8, 50)
 	per := c.N(40, 200)
 	bt, items, err := buildBatch(n, func(i int) *ir.Request {
-		return gen.GenRuntimeFile(r.Fork(fmt.Sprint("c09-", i)), i, gen.RuntimeOpts{Headers: true})
+		q := gen.GenRuntimeFile(r.Fork(fmt.Sprint("c09-", i)), i, gen.RuntimeOpts{Headers: true})
+		if i < 2 {
+			// two fixed header layouts: a service with 3 (5) required headers whose FIRST RPC declares a header of
+			// its own that sorts before them, a same-named override in the middle, and plain RPCs after both —
+			// what one operation declares must not show in what a later operation of the service publishes or validates
+			svc := q.Files[0].Services[0]
+			svc.Headers = []ir.Header{{Name: "X-Request-ID", Type: "string", Format: "uuid", Required: true}, {Name: "X-Tenant", Type: "string", Required: true}, {Name: "X-Count", Type: "integer", Required: true}}
+			if i == 1 {
+				svc.Headers = append(svc.Headers, ir.Header{Name: "X-Flag", Type: "boolean", Required: true}, ir.Header{Name: "X-Trace", Type: "string"})
+			}
+			for mi, m := range svc.Methods {
+				switch mi {
+				case 0:
+					m.Headers = []ir.Header{{Name: "Accept-Language", Type: "string", Required: true}}
+				case 2:
+					m.Headers = []ir.Header{{Name: "X-Request-ID", Type: "integer", Required: true}, {Name: "Api-Key", Type: "string", Required: true}}
+				default:
+					m.Headers = nil
+				}
+			}
+		}
+		return q
 	}, scratch.AddOpts{GoHTTP: true}, false)
 	if err != nil {
 		return err
@@ -404,6 +425,7 @@ func C09(c *Ctx) error {
 			res.Divergence(key, fmt.Sprintf("%v: every header satisfies the published contract, yet 400 %v", k.op["url"], realViol), implAgrees, replay)
 		}
 	}
+	c09Published(c, items)
 	res.Programs = len(items)
 	return nil
 }
